@@ -19,13 +19,17 @@ def formatMarker (text : List Char) (firstNonWs start stop : Nat) : List Char :=
   let base := ((text.drop firstNonWs).take offset).map fun c => if isBlank c then c else ' '
   base ++ List.replicate (offset - base.length) ' ' ++ List.replicate (stop + 1 - start) '^'
 
+/-- what is cut from the left of the excerpt: the characters the lexer takes for blank space, nothing
+    else (any other character can be the one the diagnostic is about) -/
+def isLeadBlank (c : Char) : Bool := c == ' ' || c == '\t' || c == '\r'
+
 def firstNonWs (text : List Char) : Nat :=
-  match text.findIdx? (fun c => !isWsChar c) with
+  match text.findIdx? (fun c => !isLeadBlank c) with
   | some i => i
   | none => 0
 
 def trimWs (text : List Char) : List Char :=
-  ((text.dropWhile isWsChar).reverse.dropWhile isWsChar).reverse
+  ((text.dropWhile isLeadBlank).reverse.dropWhile isWsChar).reverse
 
 /-- the three lines of `format_region(text, line, start, end)` (zero-based `line`) -/
 def formatRegion (text : List Char) (line start stop : Nat) : List (List Char) :=
